@@ -25,39 +25,46 @@ class C20(Spec):
 
     def shards(self, tier):
         out = []
+        flav = {"markdown-strikethrough": "~~a~~ b\n", "markdown-task-list-items": "- [ ] x\n- [x] y\n", "markdown-extended-autolinks": "www.a.b c\n",
+                "markdown-disallow-raw-html": "<title>\n\nx <xmp> y\n", "linter-pragmas": "<!-- pyml disable-next-line md013-->\na\n", "front-matter": "---\nt: 1\n---\nb\n"}
         if tier == "quick":
-            subsets = [[e] for e in EXT] + [EXT]
-            pool = _FLAVOURED[:6]
-            base = docs.g1_shards(1)
-            stride = 3
+            for e in EXT:
+                others = [x for x in EXT if x != e]
+                for s in docs.g1_shards(1):
+                    out.append(self.job("ext", dict(s, subset=[e])))
+                for i, s in enumerate(docs.g2_shards([flav[e]], replace=True)):
+                    if i % 4 == 0:
+                        out.append(self.job("ext", dict(s, subset=[e])))
+                    if i % 4 == 2:
+                        out.append(self.job("ext", dict(s, subset=others)))
+            for s in docs.g1_shards(1) + [x for i, x in enumerate(docs.g2_shards(["- a\n  - b\n", "# a\n\nb *c*\n"], replace=True)) if i % 3 == 0]:
+                out.append(self.job("ext", dict(s, subset=EXT)))
+            blocks, rests = ["---\nt: 1\n---\n"], ["# a\n\nb\n"]
         else:
             subsets = [list(c) for r in range(1, 7) for c in itertools.combinations(EXT, r)]
-            pool = _FLAVOURED + docs.load_pool("mini")
-            base = docs.g1_shards(2)
-            stride = 1
-        for S in subsets:
-            for s in base:
-                out.append(self.job("ext", dict(s, subset=S)))
-            heavy = len(S) in (1, 6) or tier == "quick"
-            if heavy:
-                for i, s in enumerate(docs.g2_shards(pool, replace=True)):
-                    if i % stride == 0:
-                        out.append(self.job("ext", dict(s, subset=S)))
-        blocks = ["---\nt: 1\n---\n"] if tier == "quick" else ["---\nt: 1\n---\n", "---\na: b\nc: d\n---\n"]
-        rests = ["# a\n\nb\n", "- a\n  - b\n"] if tier == "quick" else docs.load_pool("mini")
+            pool = list(flav.values()) + _FLAVOURED + docs.load_pool("mini")
+            for S in subsets:
+                for s in docs.g1_shards(1):
+                    out.append(self.job("ext", dict(s, subset=S)))
+                if len(S) in (1, 5, 6):
+                    for s in docs.g2_shards(pool, replace=True):
+                        out.append(self.job("ext", dict(s, subset=S), budget=300.0))
+            for s in docs.g1_shards(2):
+                out.append(self.job("ext", dict(s, subset=EXT), budget=300.0))
+            blocks, rests = ["---\nt: 1\n---\n", "---\na: b\nc: d\n---\n"], docs.load_pool("mini")
         for block in blocks:
             for s in docs.g1_shards(1) + docs.g2_shards(rests, replace=True):
                 out.append(self.job("frontmatter", dict(s, block=block)))
         return out
 
-    def job(self, harness, params, budget=150.0):
+    def job(self, harness, params, budget=100.0):
         p = dict(params)
         p["prop"] = self.prop
         return {"harness": harness, "params": p, "per_path_timeout": 20.0, "budget_s": budget}
 
     def bounds_text(self, tier):
         if tier == "quick":
-            return {"subsets": "each of the 6 extensions alone and all 6", "documents": "G1 length 0..1; 6 extension-flavoured skeletons, one symbolic cell at every third position", "front matter": "1 block x (G1 0..1 + 2 skeletons)"}
+            return {"subsets": "each extension alone, all but each extension, all 6", "documents": "G1 length 0..1; per extension a skeleton full of its syntax, one symbolic cell at every second position (alternating subsets)", "front matter": "1 block x (G1 0..1 + 1 skeleton)"}
         return {"subsets": "all 63 non-empty subsets on G1 length 0..2; singletons and the full set on the flavoured + mini pool", "front matter": "2 blocks x mini pool"}
 
     def readable(self, case):
